@@ -61,7 +61,7 @@ class Prop(BaseProp):
         table = gen.gen_table(rng, maxn=4, allow_op=False, aliases=rng.random() < 0.33)
         names = [k for k, _, _ in table] + [a for _, al, _ in table for a in al if a.strip() and '(' not in a and ')' not in a]
         rng.shuffle(names)
-        keys = names[:4] + ['foo', 'zq bar']
+        keys = names[:4] + ['foo', 'zq bar', 'LicenseRef-zq9']      # unknown licenses, one of them spelled like a user-defined reference
         t = gen.gen_tree(rng, keys, depth=rng.randint(1, 3), maxar=4, with_p=0.25, flags=False)
         text = gen.tree_text(rng, t)
         # a permuted sibling listed first (a cache keyed on ==/hash of expressions would confuse the two)
